@@ -61,7 +61,7 @@ def lake_build(targets):
     return rc == 0, out + err
 
 def theorems_of(prop):
-    """names of the theorems stated in Avra/Props/<prop>.lean"""
+    """names of the theorems stated in Avra/Props/<prop>.lean (or any Props file name)"""
     src = open(os.path.join(LEAN, 'Avra', 'Props', prop + '.lean')).read()
     # strip comments
     src_nc = re.sub(r'/-.*?-/', '', src, flags=re.S)
@@ -87,13 +87,16 @@ def source_audit():
                     hits.append((os.path.relpath(p, LEAN), m.group(0).strip()))
     return hits
 
-def axiom_audit(prop):
-    """#print axioms on every theorem of the property file; returns {theorem: [axioms]} and
-    the list of theorems whose axioms are not allowed"""
-    names, _ = theorems_of(prop)
+def axiom_audit(prop, files=None):
+    """#print axioms on every theorem of the property file (and of the other Props files it
+    rests on); returns {theorem: [axioms]} and the list of theorems whose axioms are not allowed"""
+    names = []
+    for f in (files or [prop]):
+        names += theorems_of(f)[0]
     audit = os.path.join(VERIF, '.cache', f'Audit{prop}.lean')
     with open(audit, 'w') as f:
-        f.write(f'import Avra.Props.{prop}\n')
+        for g in (files or [prop]):
+            f.write(f'import Avra.Props.{g}\n')
         for n in names:
             f.write(f'#print axioms {n}\n')
     rc, out, err = sh(['lake', 'env', 'lean', audit], cwd=LEAN, timeout=1800)
